@@ -79,7 +79,8 @@ def simV (r : SimRecord) : Val :=
 
 def obsV (o : Obs) : Val :=
   .list [optV ofStrs o.params, natV o.nParams, optV ofStrs o.outputs, optV natV o.regimen,
-         .bool o.hasSens, optV simV o.sim]
+         .bool o.hasSens, optV simV o.sim,
+         optV (fun (p : Nat × Option Nat) => .list [natV p.1, optV natV p.2]) o.emptyGrid]
 
 def adminV (a : Admin) : Val := .list [.str a.comp, .str a.var, .bool a.direct]
 
